@@ -9,6 +9,7 @@ import Resvg.Props.C08
 import Resvg.Props.C09
 import Resvg.Props.C10
 import Resvg.Props.C11
+import Resvg.Props.C12
 import Resvg.Props.C13
 import Resvg.Props.C14
 import Resvg.Props.C15
